@@ -1,4 +1,5 @@
 """C08 - internal record relocation and chain relinking are invisible."""
+from .fields import pf, fq
 from .model import short
 from .roles import Roles, role_effects, INNER, ITERMUT
 from .util import (calls_to, origins, where, is_call_to, lookup_split, region_dominated, bool_switches, diverges,
@@ -65,6 +66,12 @@ def _check_own(ctx):
     closure = reachable_fns(prog, roots, crates=("abyssiniandb",))
     found = {}
     n_div = 0
+    # triage entries are keyed by the pinned tree's names: private functions are mapped back through their role
+    role_name = {}
+    for r_, canon_ in (("CAP2BUCKETS", "capacity_to_buckets_size"),):
+        f_ = R.get(r_)
+        if f_ is not None:
+            role_name[f_.id] = canon_
     triaged = dict(TRIAGED)
     if "abyssiniandb_debug" in prog.features.get("abyssiniandb", []):
         triaged.update(TRIAGED_DEBUG_FEATURE)
@@ -78,7 +85,7 @@ def _check_own(ctx):
                 owner = fn
                 while owner.kind == "Closure" and owner.parent in prog.fns:
                     owner = prog.fns[owner.parent]
-                found.setdefault((owner.name, m), []).append((fn, b))
+                found.setdefault((role_name.get(owner.id, owner.name), m), []).append((fn, b))
     ctx.floor("abort-inventory", "diverging call sites examined", n_div, 40)
     from . import poscontrol
     pp = poscontrol.prog()
@@ -177,7 +184,7 @@ def check_relink_values(ctx, prog, R, eff, moved_arms):
         if o.kind != "call":
             return False
         tg = [x.id for x in prog.targets(o.data, fn)[0]]
-        if rewrite.id in tg and o.proj[:1] == ("?ok",) and o.proj[-1].endswith(".offset"):
+        if rewrite.id in tg and o.proj[:1] == ("?ok",) and o.proj[-1].endswith(pf(prog, "KeyPiece", "offset")):
             return True
         if overwrite is not None and overwrite.id in tg and o.proj == ("?ok",):
             return True
@@ -197,7 +204,7 @@ def check_relink_values(ctx, prog, R, eff, moved_arms):
         link_vals = []
         for b, t in calls_to(prog, h, target_fn=head_write):
             link_vals.append((b, origins(prog, h, t["args"][2], at=b)))
-        for f, b, s_ in field_stores(prog, "KeyPiece.bucket_next_offset"):
+        for f, b, s_ in field_stores(prog, pf(prog, "KeyPiece", "next")):
             if f.id == h.id:
                 link_vals.append((b, origins(prog, h, s_["rhs"].get("a", {}), at=b)))
         params = set()
@@ -229,7 +236,7 @@ def check_relink_values(ctx, prog, R, eff, moved_arms):
     for fn, moved, site in moved_arms:
         reg = rd(fn, moved)
         vals = [(b, origins(prog, fn, t["args"][2], at=b)) for b, t in calls_to(prog, fn, target_fn=head_write) if b in reg]
-        vals += [(b, origins(prog, fn, s_["rhs"].get("a", {}), at=b)) for f, b, s_ in field_stores(prog, "KeyPiece.bucket_next_offset") if f.id == fn.id and b in reg]
+        vals += [(b, origins(prog, fn, s_["rhs"].get("a", {}), at=b)) for f, b, s_ in field_stores(prog, pf(prog, "KeyPiece", "next")) if f.id == fn.id and b in reg]
         for b, os_ in vals:
             n += 1
             ctx.check(bool(os_) and all(is_new_offset(fn, o) for o in os_), "relink", "%s:inline-link-is-new-offset" % fn.name,
@@ -248,4 +255,5 @@ def check(ctx):
     # chain relinking on delete / overwrite is this property's subject: adopt the link-origin rules
     import_rules(ctx, "c05", {"delete-links", "overwrite-links", "insert-links"})
     import_rules(ctx, "c06", {"writer-arms"})
+    import_rules(ctx, "c09", {"sizer-covers-writer", "slot-honoured"})
     import_rules(ctx, "c01", {"op-wiring"})
